@@ -284,6 +284,12 @@ class Inliner:
         try:
             node = copy.deepcopy(f.raw)
             pre = unroll_unpacked_comprehension(node) if cand else False  # makes helper calls in `a, b, c = (F(i) for i in range(3))` statements
+            if cand:
+                # a list comprehension whose element / filter calls a new private helper becomes a loop, so the call is a statement
+                def _calls_helper(comp):
+                    return any(isinstance(c, ast.Call) and self._resolve_any(c, f, node) for c in ast.walk(comp))
+
+                pre = loopify_node(node, only=_calls_helper) or pre
             changed = (self._block_owner(node, f, node) if cand else False) or pre
             expanded = changed
             if changed:
@@ -938,13 +944,9 @@ class Inliner:
 # comprehension -> loop normal form (used by rules that are written against loops)
 
 
-def loopify(f):
-    """A copy of Func `f` in which `x = [E for t in it if c]` (also annotated) reads
-    `x = []` / `for t in it:` / `if c:` / `x.append(E)`.  Only list comprehensions that
-    are the whole right-hand side of an assignment to a plain name are rewritten."""
-    import dataclasses
-
-    node = copy.deepcopy(f.node)
+def loopify_node(node, only=None) -> bool:
+    """In place: `x = [E for t in it if c]` -> `x = []` / `for t in it:` / `if c:` / `x.append(E)` for comprehensions that are
+    the whole right-hand side of an assignment to a plain name (and, with `only`, satisfy only(comprehension))."""
     changed = False
 
     def rewrite(blk):
@@ -957,7 +959,7 @@ def loopify(f):
                 tgt = s.targets[0]
             elif isinstance(s, ast.AnnAssign) and isinstance(s.target, ast.Name) and isinstance(s.value, ast.ListComp):
                 tgt = s.target
-            if tgt is not None and not any(g.is_async for g in s.value.generators):
+            if tgt is not None and not any(g.is_async for g in s.value.generators) and (only is None or only(s.value)):
                 comp = s.value
                 used = {n.id for g in comp.generators for n in ast.walk(g.iter) if isinstance(n, ast.Name)}
                 if tgt.id not in used:
@@ -988,9 +990,20 @@ def loopify(f):
             i += 1
 
     rewrite(node.body)
-    if not changed:
+    if changed:
+        ast.fix_missing_locations(node)
+    return changed
+
+
+def loopify(f):
+    """A copy of Func `f` in which `x = [E for t in it if c]` (also annotated) reads
+    `x = []` / `for t in it:` / `if c:` / `x.append(E)`.  Only list comprehensions that
+    are the whole right-hand side of an assignment to a plain name are rewritten."""
+    import dataclasses
+
+    node = copy.deepcopy(f.node)
+    if not loopify_node(node):
         return f
-    ast.fix_missing_locations(node)
     g = dataclasses.replace(f)
     g.node = node
     return g
